@@ -8,6 +8,18 @@ TRUST = ("TLC; the reading of MCNP/TRIPOLI-4 semantics written down in DESIGN.md
          "(harness/vt4/shim.py) standing in for TatSu; the .t4 tokenizer and numeric SURF evaluator "
          "(harness/vt4/t4file.py); the concretiser that spells abstract decks as MCNP text")
 CHECKS = {
+ 'C10': dict(cat='model_checking', ref='6/C10',
+   text=("GenMat.tla enumerates material cards (Z=1..118, mass numbers 000/001/typical/three digits, repeated nuclides, "
+         "library suffixes, keyword entries, fractions of one sign or mixed, several spellings) and cell densities of both "
+         "signs; each is converted on a one-cell deck and TraceCompo.tla compares the written COMPOSITION block with "
+         "Material!Expected (names, order, block type, NB_ATOM flag, amounts) in exact rational arithmetic."),
+   technique='TLA+ spec of the card->composition mapping (Material.Expected) enumerated/sampled by TLC; written blocks validated by TLC'),
+ 'C16': dict(cat='model_checking', ref='6/C16',
+   text=("GenBC.tla puts reflecting/white flags on up to three surfaces of a small geometry in every position (duplicate of an "
+         "earlier/later surface, unused surface, one-sheet cone, macrobody), converted with and without de-duplication; "
+         "TraceDeck.tla clause bc: exactly one entry of the right kind per flagged surface bounding a converted cell, naming a "
+         "SURF of the file with the flagged surface's polynomial; no other entry; flagged macrobody rejected."),
+   technique='TLA+ boundary-condition clause (TraceDeck.BCVerdict) checked by TLC on files written for the exhaustively enumerated flag assignments'),
  'C06': dict(cat='model_checking', ref='6/C06',
    text=("GenLat.tla builds LAT=1 unit cells from base vectors (1-3 D, orthogonal and skew, any orientation, either plane of "
          "a pair listed first, planes optionally written with negated coefficients), ranges (negative, degenerate), fill "
